@@ -79,3 +79,92 @@ claim("C23", "TLC model checking of spec/Realloc.tla (TotalOne, FinalGetsLarger,
       "reallocation rule exhaustive in the small scope; every observed real call recomputed by TLC in fixed point "
       "(1/65536) arithmetic",
       TB)
+
+claim("C14", "TLC exploration of spec/Coalescent.tla (labelled Kingman jump chain; all complete behaviours counted, "
+      "n <= 6 quick / 7 thorough) with POSTCONDITION: counted Pr(a|k,n) = closed form = transcribed "
+      "_marginalize_over_ancestors recursion (spec/Rat.tla), exact mean/variance per (n,k) + replay of every row into "
+      "conditional_coalescent_variance / ConditionalCoalescentTimes.add (both prior distributions) + Fraction mirror "
+      "synced with TLC's rows in the same run for n up to 150 / 600",
+      "behaviour-counted exact moments within the TLC scope; the code's tables compared with them (close12) and with "
+      "the synced mirror beyond; alpha/beta judged by exact moment matching",
+      TB)
+claim("C15", "TLC model checking of spec/Spans.tla over TSGen forests (simplified, isolated samples allowed): declarative "
+      "Span(u,T,k), SpansSumToNodeSpan, mixture moments in Rat + exact replay into SpansBySamples.get_spans / node_spans "
+      "and mixture_expect_and_var / MixturePrior.prior_params + synced per-tree-count mirror on simulated inputs with "
+      "polytomies and missing data",
+      "exhaustive in the TSGen scope; the code compared exactly with TLC's span tables and (close12) mixture moments",
+      TB)
+claim("C16", "TLC model checking of spec/PriorGrid.tla (FillRow + standardize over all abstract nondecreasing CDF tables) + "
+      "replay of every table into the real fill_priors with scipy's cdf stubbed by the table + TLC trace validation "
+      "(spec/PriorGridTrace.tla) of real build_prior_grid calls x timepoints x distributions x population-size forms",
+      "grid structure exhaustive over abstract tables; masses on real calls compared with the mirror of the spec's "
+      "Expected row applied to scipy's cdf (trusted primitive, rtol 1e-10)",
+      TB + "; scipy cdf trusted")
+claim("C17", "TLC model checking of spec/Demography.tla in exact rationals (code-shaped _change_time_measure = integral of "
+      "1/(2N); inverse; continuity; monotonicity; as_dict round trip; constant-size gamma) + exact replay of every "
+      "case into PopulationSizeHistory + hypothesis-generated float histories judged by the synced Fraction mirror "
+      "with a backward-error bound; general gamma_to_natural vs scipy quadrature",
+      "exhaustive over <= 3-4 epoch histories on small lattices; floats over 12 orders of magnitude through the "
+      "mirror synced with TLC in the same run",
+      TB + "; scipy quadrature trusted (rtol 1e-6)")
+claim("C02", "TLC model checking of spec/Session.tla (get_modified_ts-shaped dating step over canonical columns: DateFrame, "
+      "FrameDuringCall, FalseKeepsMetadata) + TLC trace validation (spec/SessionTrace.tla: Frame on 41 interned "
+      "columns, MutNode on matched mutations) of real date()/named-method calls on decorated inputs x 3 methods x "
+      "set_metadata x record_provenance x singletons_phased, and of the repository test-suite's calls (thorough)",
+      "every observed real call is decided by TLC column by column; the model's frame condition is exhaustive over "
+      "starting metadata kinds x methods x option sets within the bound",
+      TB + "; canonical comparison under TableCollection.sort() re-ordering")
+claim("C04", "TLC (spec/Metadata.tla: when time metadata is written) + TLC trace validation (SessionTrace Posterior clauses "
+      "over interned mn/vr values after a codec round trip, named predicates prob_row / close12) of real "
+      "date(return_fit=True) calls x schema kinds x methods, plus the test-suite's calls (thorough)",
+      "every node and mutation value of every observed call compared by TLC (interned equality); grid predicates "
+      "evaluated by the harness and demanded by the spec",
+      TB)
+claim("C32", "TLC model checking of spec/Metadata.tla (set_time_metadata procedure vs the statement's outcome table, 612 "
+      "cells exhaustive) + replay of every cell on real table collections with outcome classification + TLC trace "
+      "validation (MdPolicy clauses); the module's codec model is checked against tskit on every pair",
+      "exhaustive over schema-consistent kind combinations; the code compared with the specification's expected "
+      "class per cell",
+      TB)
+claim("C33", "TLC model checking of spec/Session.tla (AppendOnly action property, ProvPerCall) over all call histories "
+      "<= 2 (simulated to 4) + replay of every emitted history as a prefix tree on real tree sequences + TLC trace "
+      "validation (Prov clauses: prefix, count, command, valid record, every parameter) incl. numpy-typed values "
+      "and the repository test-suite's calls (thorough)",
+      "exhaustive histories within the bound; every real call decided by TLC",
+      TB)
+
+claim("C34", "TLC model checking of spec/CLI.tla (argparse model over the declared option table + dispatch; UsageExact, "
+      "Faithful, NoInvention, Routing, RejectsIrrelevant, Verbosity; refutation self-test of the pre-repair parser) + "
+      "replay of every emitted command line into tsdate.cli.tsdate_main under an API recorder, output file vs the "
+      "direct Python call",
+      "exhaustive up to <= 1 (quick) / <= 4 (thorough) simultaneously given options with method, mutation rate and "
+      "all preprocess options free, simulated beyond; kwargs compared type-strictly, outputs table-equal modulo "
+      "provenance timestamps/resources",
+      TB + "; in-process tsdate_main stands for the console script")
+claim("C35", "TLC model checking of spec/Validate.tla (decision procedure over parameter / input classes; NamedRejected, "
+      "NoSpuriousRejection, DocRejected, ShapeDefined, AllowedClean) + replay of every emitted record into date() / "
+      "variational_gamma / inside_outside / maximization on TLC-generated TSGen tree sequences, the seeded corpus, "
+      "sparse-mutation and 1e-6..1e12-scaled inputs; the outcome class must be in the spec's allowed set",
+      "parameter records exhaustive up to <= 1 / <= 3 non-standard classes, simulated beyond; inputs sampled; three "
+      "open findings recorded with input-class-specific signatures",
+      TB + "; parameter magnitudes finite and ordinary; undocumented parameters excluded")
+claim("C25", "TLC model checking of spec/Rescale.tla (difference-array epochs = direct overlap with rational rates; "
+      "breakpoints from the C26 defining inequality with free ties; map continuous / non-decreasing / fixes 0 / keeps "
+      "fixed nodes; order preserved) + replay of every behaviour and of TLC-evaluated larger instances into "
+      "mutational_area / mutational_timescale / piecewise_scale_point_estimate + TLC trace validation "
+      "(spec/RescaleTrace.tla: ranks and named tolerances) of ExpectationPropagation.rescale inside real date() calls",
+      "exhaustive in the bounded scope for the design; kernels compared bitwise or rel 1e-12 with the specification; "
+      "every observed rescale() decided by TLC",
+      TB + "; means ranked after rel-1e-12 clustering")
+claim("C26", "TLC model checking of spec/Changepoints.tla (searchsorted as binary search vs the defining inequality, ties "
+      "free; PELT DP column by column with exact rational-power costs vs the optimum over all feasible segmentations "
+      "and a prefix-optimum loop invariant; variants incl. the pre-repair one, which TLC refutes) + exhaustive replay "
+      "of instances and TLC-evaluated random larger instances into the compiled helpers",
+      "exhaustive in scope; results compared exactly with TLC's admissible / optimal sets",
+      TB + "; penalty = 2 ln K; zero-count deviance 0")
+claim("C37", "TLC (Sweep tallies -> Rescale, file mode) computes the exact one-iteration result for TSGen tree sequences; "
+      "rescale_tree_sequence replayed against it; TLC trace validation (spec/RescaleTrace.tla) of every successful "
+      "call incl. multi-iteration and msprime inputs: valid, topology, sample times, non-decreasing ranks, mutation "
+      "midpoints",
+      "bounded TSGen scope exact; real calls decided by TLC on rank / interning abstraction",
+      TB + "; AssertionErrors judged only where the specification decides them")
